@@ -189,6 +189,32 @@ def held_lock_scenarios(run):
                                     "store": {"kind": kind, "disc": "full", "empty_is_err": False, "content": base},
                                     "user": {"verif_enabled": True, "presence_enabled": True, "script": [{"presence": True, "verification": True}]},
                                     "ceremonies": [op], "schedule": [0] * (n + 3), "hold": {"kind": hold, "from": frm, "to": to}, "held_tag": tag})
+    # two ceremonies of two authenticators QUEUE on a lock that somebody else holds, then the lock is released: ceremony B was
+    # advanced b polls and ceremony A a polls before the holder took the lock; both are polled once while it is held (so their next
+    # store calls wait in that order), then everything drains.  A = assertion without allow list (a lookup that goes through the
+    # wrapper's whole read path), B = assertion on another credential / on the same credential.
+    cid2 = bytes([0xC2]) * 16
+    two = base + [mk_passkey(rng, "example.com", cred_id=cid2, counter=3, keyidx=1)]
+    for kind in ("arc_rwlock_ref", "arc_mutex_ref", "arc_rwlock_memory", "arc_mutex_memory"):
+        mem = "memory" in kind
+        for same in (False, True):
+            opA = {"op": "get_assertion", "req": ga_req(rng, allow=[cid] if (mem or same) else None)}
+            opB = {"op": "get_assertion", "req": ga_req(rng, allow=[cid] if same else [cid2])}
+            for a in range(0, 4):
+                for b in range(0, 4):
+                    for order in ((0, 1), (1, 0)):
+                        for hold in (("write", "read") if "rwlock" in kind else ("write",)):
+                            pre = [1] * b + [0] * a
+                            sched = pre + list(order) + [0, 1] * 6
+                            # issue order is known by construction (every store call yields once before it is made): after 3 polls B has
+                            # done its lookup and consent and stands before its counter update, after at most 1 poll A stands before
+                            # its lookup; polled in the order B, A while the lock is held, B's update waits for the lock ahead of A's lookup
+                            ordered = same and b == 3 and a <= 1 and order == (1, 0)
+                            scs.append({"mode": "concurrent", "config": {"aaguid": "00" * 16, "counter": True, "id_len": 16, "hmac": None},
+                                        "store": {"kind": kind, "disc": "full", "empty_is_err": False, "content": two},
+                                        "user": {"verif_enabled": True, "presence_enabled": True, "script": [{"presence": True, "verification": True}]},
+                                        "ceremonies": [opA, opB], "schedule": sched, "hold": {"kind": hold, "from": len(pre), "to": len(pre) + 2},
+                                        "held_tag": "two-queued", "same_credential": same, "update_issued_before_lookup": ordered})
     # a shared store of fixed capacity that is exactly full: a registration is REFUSED by the store (KeyStoreFull) inside the lock
     # wrapper while another authenticator on the same Arc asserts - the refusal is reported, nobody waits for ever
     reg = {"op": "make_credential", "req": mc_req(rng, rk=True)}
@@ -210,6 +236,8 @@ def judge_held(sc, out):
     if "results" not in out:
         return [("crash", "the worker crashed: %s" % json.dumps(out)[:200])]
     if out["deadlock"] or any(r is None for r in out["results"]):
+        if sc.get("held_tag") == "two-queued":
+            return [("C19", "deadlock: two ceremonies queued on a lock that another handle held; after it was released they never finished")]
         if sc.get("held_tag") == "full-store":
             return [("C19", "deadlock: a registration that the (full) store refused inside its lock wrapper never returned, or blocked the ceremony beside it")]
         return [("C19", "deadlock: the ceremony never finished after the other holder released the store's lock")]
@@ -218,6 +246,22 @@ def judge_held(sc, out):
     before = sc["store"]["content"]
     after = out["store_after"]
     tag = sc["held_tag"]
+    if tag == "two-queued":
+        ra, rb = out["results"]
+        for name, r in (("A", ra), ("B", rb)):
+            if "ok" not in r:
+                fails.append(("C19", "assertion %s failed after queueing on a held lock beside another ceremony: %s" % (name, json.dumps(r)[:80])))
+        if not fails and sc["same_credential"]:
+            ca, cb = ra["ok"]["auth_data"]["counter"], rb["ok"]["auth_data"]["counter"]
+            st = next((p["counter"] for p in after if p["cred_id"] == cid), None)
+            if sc["update_issued_before_lookup"]:
+                # B's update reached the store before A's lookup was issued: no overlap, A must see B's value
+                if not (ca > cb and st == ca):
+                    fails.append(("C19", "assertion B's counter update was issued before assertion A's lookup (both queued on a held lock, B first), yet "
+                                         "the counters are B=%s, A=%s and the store holds %s: one store call was not one critical section" % (cb, ca, st)))
+            if st != max(ca, cb):
+                fails.append(("C19", "the store holds counter %s, the assertions reported %s and %s" % (st, ca, cb)))
+        return fails
     if tag == "full-store":
         asr = out["results"][1]
         if res.get("err") != 0x28:
